@@ -276,7 +276,7 @@ def edited_nontrivial(case):
 
 SUBS = [
     # HUGRs after raw edits with index reuse: child order differs from index order
-    Sub("render-after-edits", check, strategy=edited_strategy, nontrivial=edited_nontrivial, classes=lambda c: ["children-not-in-index-order"] if edited_nontrivial(c) else ["children-in-index-order"], n_quick=150, n_thorough=1000),
+    Sub("render-after-edits", check, fuzz_runs=800, strategy=edited_strategy, nontrivial=edited_nontrivial, classes=lambda c: ["children-not-in-index-order"] if edited_nontrivial(c) else ["children-in-index-order"], n_quick=150, n_thorough=1000),
     Sub("render", check, strategy=strategy, nontrivial=nontrivial, classes=lambda c: ["qualify" if c["cfg"]["qualify"] else "plain", "custom-palette" if not isinstance(c["cfg"]["palette"], str) else c["cfg"]["palette"]] + [x for x in c["prog"].get("classes", []) if x in NT | CONT | {"metadata"}],
         n_quick=250, n_thorough=1500, sample_ok=lambda c: len(c["prog"]["events"]) <= 8),
 ]
